@@ -22,7 +22,7 @@ func init() {
 			k.Ifaces = []string{"I0"}
 			return k
 		},
-		clauses: []string{CPoisoned, CRootCause, CContinued, CExecTwice, CBadExec, CProvSingle, CGroupMultiset, CMustRunMissing, CZeroRequired},
+		clauses: []string{CPoisoned, CRootCause, CContinued, CExecTwice, CBadExec, CProvSingle, CGroupMultiset, CMustRunMissing, CZeroRequired, CVerdictInvoke, CSpuriousCycle},
 		nt:      func(l map[string]bool) bool { return l["retry-after-fault"] || l["failure-beside-success"] },
 		valid:   true,
 		assume:  []string{"a panic escaping Invoke (RecoverFromPanics off) is caught by the harness's own recover()"},
